@@ -1121,7 +1121,7 @@ fn self_test() {
 
 fn main() {
     let root = vcore::run::verif_root();
-    let scratch = std::env::var("VERIF_ROOT").is_ok();
+    let scratch = root != "/verif";
     let repo = std::env::var("VERIF_REPO").unwrap_or_else(|_| "/repo".to_string());
     let target_dir = if scratch { format!("{root}/target-ykh") } else { "/verif/target/ykh-bin".to_string() };
 
